@@ -92,6 +92,10 @@ pub fn gen(prop: &str, seed: u64, index: u64, tier: Tier) -> Case {
         dotted: DOTTED_STEMS,
         ..Default::default()
     };
+    if tier == Tier::Thorough {
+        // larger graphs beyond the swept ones
+        o.max_n = 10;
+    }
     let cyclic = match prop {
         "C05" => rng.chance(4, 5),
         "C03" => rng.chance(1, 4),
